@@ -15,12 +15,12 @@ from ..symx import Expander
 from ..anf import R, Unsupported
 from .. import anf, units
 from ..units import Lin, Log, Tup, TOP, BOOL, num
-from .common import struct_ob, formula_ob, guard, last_return, U
+from .common import memo_obligations, dtype_hazard_obligations, struct_ob, formula_ob, guard, last_return, U
 from ..report import AnalysisError, Ob
 from ..term import Resolver, pmatch, find_all, abstract, anf_of
 
 REL = "inference/pdf/kde.py"
-FLOORS = {"region-provenance": 2, "kernel-form": 2, "region-tables": 3, "truncation-bound": 1, "units": 3, "units-result-types": 3}
+FLOORS = {"float-arithmetic": 1, "region-provenance": 2, "kernel-form": 2, "region-tables": 3, "truncation-bound": 1, "units": 3, "units-result-types": 3}
 
 EXPECTED = {"__call__": "Lin(-1,0)", "cdf": "Lin(0,0)", "attr:h": "Lin(1,0)", "attr:mode": "Lin(1,1)"}
 
@@ -272,6 +272,10 @@ def run(prog, tier):
                ("user bandwidth", {"args": [S], "kws": {"bandwidth": Lin(1, 0)}})]
     public = {"__call__": [S], "cdf": [S], "__attr__": ["h", "mode"]}
     obs.extend(units_obligations(prog, REL, "GaussianKDE", configs, public, EXPECTED))
+
+    obs.extend(dtype_hazard_obligations(prog, "float-arithmetic", ['inference/pdf/kde.py']))
+
+    obs.extend(memo_obligations(prog, "cache-key", [prog.cls("GaussianKDE")]))
 
     meta = {
         "explanation": "Normal-form equality of the pdf / cdf summands with the Gaussian kernel and its integral for bandwidth h "
